@@ -1,7 +1,7 @@
 """props.py — per-property configuration and the generic run loop (see vcheck.py, DESIGN.md 3.6)."""
 import os, sys, json, time, zlib, random
 from fractions import Fraction as Fr
-import vlib, corr, vcheck
+import vlib, corr, vcheck, gen2
 from gen import G, fs, EPS_D
 from vcheck import Violation
 
@@ -19,6 +19,7 @@ PRED_SIG = {
     "P01": ("GHHV", 0),
     "P07": ("TTT", 0),
     "P06": ("GHTT", 0), "P06S": ("T", 0), "P04": ("GHT", 0), "P05": ("GHTV", 0), "J05": ("GHTV", 0), "P09": ("GHTV", 0), "P02": ("T", 0), "P03": ("GT", 0),
+    "W08": ("", 0), "P18": ("GGTTUE", 0), "P18D": ("GGTTUE", 0), "P18F": ("G", 0),
 }
 for k, v in PRED_SIG.items(): corr.OPSIG[k] = v
 
@@ -295,6 +296,129 @@ PROPS["C06"] = dict(
                  "IEEE rounding is only tested"],
 )
 
+
+def gen_p18(op, kmax=40, emin=14):
+    """X valid (any hemisphere), the same transformation with the quaternion negated, a small tangent d whose largest
+    component is e*{2^-10, 1/4, 1/2, 2, 4, 2^10} (Y = X + d is built by the harness), tangents t, u at controlled distance, e"""
+    def f(g, gn):
+        gd = corr.group(gn)
+        X = corr.gen_elem(g, gd, True, kmax=kmax)
+        Xn = neg_rot(gd, X) or X
+        e = g.r.choice([EPS_D, Fr(1, 10 ** g.r.randint(3, emin)), Fr(g.r.randint(1, 99), 10 ** g.r.randint(2, emin))]) if emin > 8 else Fr(g.r.randint(1, 99), 10 ** g.r.randint(3, emin))
+        fac = g.r.choice([Fr(0), Fr(1, 1024), Fr(1, 4), Fr(1, 2), Fr(2), Fr(4), Fr(1024)])
+        g.note("p18_factor:%s" % fs(fac))
+        d = [e * fac * Fr(g.r.randint(-100, 100), 100) for _ in range(gd.dof)]
+        if fac: d[g.r.randrange(gd.dof)] = e * fac * g.r.choice([1, -1])
+        # keep the rotation part of d inside the injectivity radius
+        i = 0
+        for kind, n in gd.tparts:
+            if kind != "lin": d[i:i + n] = [min(max(x, Fr(-1)), Fr(1)) for x in d[i:i + n]]
+            i += n
+        regime = g.r.choice(["zero", "tiny", "moderate", "large"])
+        g.note("p18_tangent:" + regime)
+        sc = {"zero": Fr(0), "tiny": e * Fr(g.r.randint(1, 99), 100), "moderate": Fr(g.r.randint(1, 300), 100), "large": Fr(g.r.randint(1, 99)) * 2 ** g.r.randint(5, kmax)}[regime]
+        t = [sc * Fr(g.r.randint(-100, 100), 100) for _ in range(gd.dof)]
+        pf = g.r.choice([Fr(0), Fr(1, 1024), Fr(1, 4), Fr(4), Fr(1024)])
+        rel = g.r.random() < 0.5
+        base = e * (max([abs(x) for x in t] + [0]) if rel else 1)
+        u = [a + base * pf * Fr(g.r.randint(-100, 100), 100) for a in t]
+        return dict(group=gn, op=op, mask="-", iarg=0, flt=0, args=[X, Xn, d, t, u, [e]])
+    return f
+
+def gen_p18f(g, gn):
+    """valid element whose translation-like coordinates are large (1e3 .. 1e9): the float clause of C18"""
+    gd = corr.group(gn); out = []
+    for kind, n in gd.eparts:
+        if kind == "lin":
+            k = g.r.randint(3, 9); g.note("p18f_magnitude:1e%d" % k)
+            out += [Fr(g.r.randint(-9999, 9999), 1000) * 10 ** k for _ in range(n)]
+        elif kind == "rot2": out += g.unit2("generic" if g.r.random() < 0.7 else None)
+        else: out += g.unit4("generic_pos" if g.r.random() < 0.7 else None)
+    return dict(group=gn, op="P18F", mask="-", iarg=0, flt=0, args=[out])
+
+P18_PAIRS = ["X.isApprox(X,e)", "X==X", "X.isApprox(-q,e)", "(-q).isApprox(X,e)", "isApprox symmetric", "isApprox(X+d,X,e) vs |d| well below / well above e",
+             "t.isApprox(t,e)", "tangent isApprox symmetric", "tangent isApprox = absolute test near zero / relative test otherwise",
+             "t.isApprox(Zero,e) is the absolute test", "Zero.isApprox(t,e) is the absolute test", "Y==Y for Y=X+d"]
+PROPS["C18"] = dict(
+    vfiles=["Properties_C18.v"], level="proof",
+    groups=BASE_GROUPS,
+    corr_ops=["IsApprox", "TIsApprox", "Rminus"],
+    preds=[dict(op="P18", pairs=P18_PAIRS, scalars=("q",), gen=gen_p18("P18")),
+           dict(op="P18D", pairs=P18_PAIRS, scalars=("d",), gen=gen_p18("P18D", kmax=8, emin=7), dtol=0.0, dscale=lambda c: 1.0),
+           dict(op="P18F", pairs=["X==X (large coordinates)", "X.isApprox(X) (large coordinates)", "Z==Z for Z=X*X^-1*X (large coordinates)"], scalars=("d",), gen=gen_p18f, dtol=0.0, dscale=lambda c: 1.0)],
+    n=dict(quick=(30, 40), thorough=(400, 600)),
+    assumptions=["model = hand-written Gallina mirror of TangentBase::isApprox (with Eigen's isZero / isApprox spelled out) and LieGroupBase::isApprox = rminus(m).isApprox(Zero, eps); tied to /repo by exact comparison over the rational scalar (IsApprox, TIsApprox ops at controlled tangent distances)",
+                 "theorems are over Coq's classical reals; the clause 'also for elements with large coordinates' is true over the reals (C18_refl_<G>) and is decided for IEEE double by the sweep P18F (coordinates 1e3..1e9)"],
+)
+
+
+def rot_slot(gd):
+    i = 0
+    for kind, n in gd.eparts:
+        if kind in ("rot2", "rot4"): return [i, n]
+        i += n
+    return [0, 0]
+
+def gen_w08(steps, small=True):
+    def f(g, gn):
+        gd = corr.group(gn)
+        c = gen2.gen_history(g, gn)
+        X, Y, us = c["args"][0], c["args"][1], c["args"][2]
+        if not small:
+            X = corr.gen_elem(g, gd, True, kmax=6); Y = corr.gen_elem(g, gd, True, kmax=6)
+            ts = [gen2.small_tangent(g, gd) for _ in range(5)] + [sweep_tangent(g, gd, linmax=1) for _ in range(3)]
+        else:
+            X = gen2.small_elem(g, gd, True); Y = gen2.small_elem(g, gd, True); ts = c["args"][3:]
+        us = [u for u in us if 0 <= u <= 1] or [Fr(1, 2)]
+        return dict(group=gn, op="W08", mask="-", iarg=steps if isinstance(steps, int) else g.r.choice(steps), flt=0, args=[X, Y, us, rot_slot(gd)] + ts)
+    return f
+
+def c08_walks(pid, P, tier, seed, log):
+    """the invariant as a monitor on the real double / float builds, assertion-enabled and NDEBUG: long random walks over the
+    element-producing operations; after every step | |rotation part|^2 - 1 | <= eps (+ rounding), finite coefficients, no exception"""
+    import math
+    g = mkgen(pid, seed, 99)
+    nwalk, steps = (3, 20000) if tier != "thorough" else (12, 500000)
+    raw = []; cov = dict(walks=0, walk_steps=0, walk_builds=[])
+    for sc, epsv, u in (("d", float(EPS_D), 2.0 ** -53), ("f", 100 * 2.0 ** -23, 2.0 ** -24)):
+        for ndebug in (False, True):
+            cases = [gen_w08(steps, small=False)(g, gn) for gn in P["groups"] for _ in range(nwalk)]
+            res, be = corr.run_cases(cases, ndebug=ndebug, scalar=sc, model=False, timeout=3000)
+            for n_, lg in be.items():
+                raw.append(("build", dict(binary=n_), "harness %s does not build against the current tree: %s" % (n_, lg[-400:]), dict(binary=n_, log=lg[-3000:]), False))
+            cov["walk_builds"].append("%s/%s" % (sc, "NDEBUG" if ndebug else "assertions"))
+            for r in res:
+                c = r["case"]
+                if r["impl"] == "build_failed": continue
+                outs = vcheck.parse_outs(r["impl"])
+                cov["walks"] += 1; cov["walk_steps"] += c["iarg"]
+                sig = dict(group=c["group"], pred="W08", scalar=sc, build="NDEBUG" if ndebug else "assert", _args=c["args"])
+                rep = dict(kind="walk", scalar=sc, ndebug=ndebug, case=corr.case_json(c), result=r["impl"][:400])
+                if outs is None:
+                    raw.append(("pred", dict(sig, pair="exception"), "%s: a %d-step history over %s (%s) raised %s" % (c["group"], c["iarg"], sc, sig["build"], r["impl"][:80]), rep, True)); continue
+                maxdev, exc, nonfin = float(outs[0][0]), int(outs[2][0]), int(outs[4][0])
+                bound = epsv * (1 + 2.0 ** -8) + 64 * u
+                if not (maxdev <= bound):
+                    raw.append(("pred", dict(sig, pair="unit norm within eps"), "%s: after a %d-step history over %s (%s) the rotation part deviates from unit norm by %.3e > eps = %.3e" % (c["group"], c["iarg"], sc, sig["build"], maxdev, epsv), rep, True))
+                if exc:
+                    raw.append(("pred", dict(sig, pair="no exception"), "%s: a %d-step history over %s (%s) raised invalid_argument %d times" % (c["group"], c["iarg"], sc, sig["build"], exc), rep, True))
+                if nonfin:
+                    raw.append(("pred", dict(sig, pair="finite"), "%s: a %d-step history over %s (%s) produced non-finite coefficients %d times" % (c["group"], c["iarg"], sc, sig["build"], nonfin), rep, True))
+    log("walks: %d walks, %d steps in total, builds %s, %d failures" % (cov["walks"], cov["walk_steps"], ",".join(cov["walk_builds"]), len(raw)))
+    return raw, cov
+
+PROPS["C08"] = dict(
+    vfiles=["Properties_C08.v"], level="proof",
+    groups=BASE_GROUPS,
+    corr_ops=["History", "Cast", "Compose", "Inverse", "Between", "Exp", "Rplus", "Lplus", "Normalize"],
+    preds=[dict(op="W08", pairs=["| |rotation part|^2 - 1 | <= eps after every step", "no exception", "finite coefficients"], scalars=("q",),
+                exact=[1, 2], qtol=float(EPS_D), dscale=lambda c: 1.0, gen=gen_w08([1, 2, 3, 4, 5]))],
+    extra=[c08_walks],
+    n=dict(quick=(25, 25), thorough=(300, 300)),
+    assumptions=["model = hand-written Gallina mirror of compose (with the conditional renormalisation by approxSqrtInv), inverse, exp (incl. SO3's small-angle branch), cast, interpolate_slerp and of the history machine (coq/Hist.v); tied to /repo by exact comparison of encoded histories over the rational scalar",
+                 "theorems are over Coq's classical reals (exact arithmetic), for every 0 < eps <= 1/8; IEEE rounding is not in the theorems: it is monitored on the double and float builds, assertion-enabled and NDEBUG, by random walks (quick: 2e4 steps, thorough: 5e5 steps per walk) with the bound eps*(1+2^-8)+64u"],
+)
+
 # ------------------------------------------------------------------ generic engine
 def mkgen(pid, seed, salt=0):
     return G((seed * 1000003 + zlib.crc32(pid.encode()) + salt) & 0x7fffffff)
@@ -505,6 +629,7 @@ def run_property(pid, P, tier, seed):
                sig.get("file"), sig.get("site"), kn.get("id", kn.get("what")) if kn else None)     # violation of the same pair is never hidden behind a listed one
         if key in seen: continue
         seen.add(key); vio.append(v_)
+    vio.sort(key=lambda v: 0 if v.found_input else 1)     # violations with a concrete failing input are reported first
     samples = []
     for r in results[:: max(1, len(results) // 4)][:4]:
         samples.append(dict(case=corr.case_line(0, r["case"])[:300], impl=r["impl"][:200], model=r["model"][:200]))
